@@ -55,7 +55,8 @@ def runs(tier):
 
 
 def main(tier):
-    return poolcheck.run('C06', tier, runs(tier), ASSUME, RULE, traces=(800, 6, 24) if tier == "quick" else (8000, 8, 240))
+    return poolcheck.run('C06', tier, runs(tier), ASSUME, RULE, traces=(800, 6, 24) if tier == "quick" else (8000, 8, 240),
+                         api_traces=(tier != "quick"))
 
 
 def selftest():
